@@ -339,19 +339,29 @@ class EnumGen:
         if e.phf:
             items.append('use_phf')
         if e.err:
-            items.append('parse_err_ty = PErr, parse_err_fn = perr')
+            items += ['parse_err_ty = PErr', 'parse_err_fn = perr']
         if e.cis:
             items.append('const_into_str')
         if self.sp != 'strum':
             items.append('crate = %s' % rust_str(self.sp))
         out = []
-        if items:
+        lay = e.extra.get('eattr_layout', 'one')
+        if lay in ('rev', 'revsplit'):
+            items = list(reversed(items))
+        if items and lay in ('split', 'revsplit'):
+            out += ['#[strum(%s)]' % it for it in items]
+        elif items:
             out.append('#[strum(%s)]' % ', '.join(items))
+        if lay in ('rev', 'revsplit'):
+            # the strum attributes after #[repr] and the other attributes
+            tail, out = out, []
+        else:
+            tail = []
         for a in e.repr_attrs():
             out.append('#[repr(%s)]' % ', '.join(a))
         for x in e.extra.get('enum_attrs', []):
             out.append(x if self.sp == 'strum' else x.replace('strum::', self.sp + '::'))
-        return out
+        return out + tail
 
     def dw_fns(self):
         """default_with functions: name -> field type key"""
